@@ -158,68 +158,119 @@ def run(idx: ProgramIndex, rep: Report, tier: str):
         if not (isinstance(lo, Affine) and isinstance(hi, Affine) and lo.terms == wl and hi.terms == wh):
             probs.append("returns (%s , %s), expected (MEAN - 2*STD, MEAN + 2*STD)" % (show(lo), show(hi)))
     rep.add("C10-1", "%s:MultivariateNormal.confidence_region" % MOD, cr.where, not probs, "(mean - 2 stddev, mean + 2 stddev)" if not probs else "; ".join(probs), {})
-    # C10-2 indexing
+    # C10-2 indexing (decided on inlined expressions: E is whatever the mean is indexed with; the covariance must be indexed
+    # with E (batch only), E[:-1] (ellipsis) or with E[:-1] followed by E[-1] on *both* event axes)
+    from ..symbolic import inline, walk_paths
     gi = idx.method(M, "__getitem__", own=True)
     probs = []
     sn = gi.params[0]
-    mean_idx = [n for n in ast.walk(gi.node) if isinstance(n, ast.Assign) and isinstance(n.value, ast.Subscript) and chain(n.value.value) == "%s.mean" % sn]
-    if len(mean_idx) != 1 or src(mean_idx[0].value.slice) != "idx":
-        probs.append("the mean is not indexed with the full index")
-    cov_assigns = [n for n in ast.walk(gi.node) if isinstance(n, ast.Assign) and isinstance(n.targets[0], ast.Name) and n.targets[0].id == "new_cov"]
     nb = 0
-    for a in cov_assigns:
-        nb += 1
-        # collect the subscript chain on the covariance (or on its diagonal)
-        subs, cur, on_diag = [], a.value, False
-        while True:
-            if isinstance(cur, ast.Subscript):
-                subs.append(cur)
-                cur = cur.value
-            elif isinstance(cur, ast.Call) and isinstance(cur.func, ast.Attribute) and cur.func.attr in ("diagonal",):
-                on_diag = True
-                cur = cur.func.value
-            elif isinstance(cur, ast.Call) and chain(cur.func) in ("DiagLinearOperator", "to_linear_operator") and cur.args:
-                cur = cur.args[0]
+    forms_seen = set()
+    for path, seq in walk_paths(gi):
+        for st, env in seq:
+            if not (isinstance(st, ast.Return) and st.value is not None):
+                continue
+            r = inline(st.value, env)
+            if not (isinstance(r, ast.Call) and src(r.func) in ("%s.__class__" % sn, "MultivariateNormal", "type(%s)" % sn)):
+                probs.append("the result is not self.__class__(mean, covariance)")
+                continue
+            me, ce = _ctor_args(r)
+            if not (isinstance(me, ast.Subscript) and chain(me.value) in ("%s.mean" % sn, "%s.loc" % sn)):
+                probs.append("the mean of the result is not self.mean[<index>]")
+                continue
+            E = me.slice
+            dE = ast.dump(E)
+            d_rest = ast.dump(ast.Subscript(value=E, slice=ast.Slice(lower=None, upper=ast.UnaryOp(op=ast.USub(), operand=ast.Constant(value=1)), step=None), ctx=ast.Load()))
+            d_last = ast.dump(ast.Subscript(value=E, slice=ast.UnaryOp(op=ast.USub(), operand=ast.Constant(value=1)), ctx=ast.Load()))
+            nb += 1
+            subs, cur, on_diag = [], ce, False
+            while True:
+                if isinstance(cur, ast.Subscript):
+                    subs.append(cur)
+                    cur = cur.value
+                elif isinstance(cur, ast.Call) and isinstance(cur.func, ast.Attribute) and cur.func.attr in ("diagonal",):
+                    on_diag = True
+                    cur = cur.func.value
+                elif isinstance(cur, ast.Call) and chain(cur.func) in ("DiagLinearOperator", "to_linear_operator") and cur.args:
+                    cur = cur.args[0]
+                else:
+                    break
+            if chain(cur) not in ("%s.lazy_covariance_matrix" % sn, "%s._covar" % sn):
+                probs.append("a branch builds the covariance from `%s`" % src(ce)[:60])
+                continue
+
+            flat = []
+            for x in reversed(subs):
+                whole = ast.dump(x.slice)
+                for e in ([x.slice] if whole in (dE, d_rest, d_last) or not isinstance(x.slice, ast.Tuple) else x.slice.elts):
+                    star = isinstance(e, ast.Starred)
+                    d = ast.dump(e.value if star else e)
+                    tag = "idx" if d == dE else "rest" if d == d_rest else "last" if d == d_last else ("ellipsis" if isinstance(e, ast.Constant) and e.value is Ellipsis else "full" if src(e) in ("slice(None, None, None)",) or (isinstance(e, ast.Slice) and e.lower is None and e.upper is None) else "?" + src(e)[:20])
+                    flat.append(tag + ("*" if star else ""))
+            n_last = flat.count("last")
+            if flat in (["idx"], ["rest"]):
+                forms_seen.add(flat[0])
+                continue  # batch-only index / ellipsis as last index
+            if any(t.startswith("?") for t in flat):
+                probs.append("a branch indexes the covariance with something other than the event index of the mean: %s" % flat)
+            elif on_diag:
+                forms_seen.add("int")
+                if not (n_last == 1 and "rest*" in flat):
+                    probs.append("int index: the diagonal is not indexed with (*rest, last)")
+            elif n_last != 2 or "rest*" not in flat:
+                probs.append("a branch indexes the covariance with %s: the event index does not reach both axes" % flat)
             else:
-                break
-        if chain(cur) not in ("%s.lazy_covariance_matrix" % sn, "%s._covar" % sn):
-            probs.append("a branch builds the covariance from `%s`" % src(a.value)[:60])
-            continue
-
-        def elems(sl):
-            out = []
-            for e in (sl.elts if isinstance(sl, ast.Tuple) else [sl]):
-                out.append(src(e.value) + "*" if isinstance(e, ast.Starred) else src(e))
-            return out
-
-        idxs = [elems(x.slice) for x in reversed(subs)]
-        flat = [e for l in idxs for e in l]
-        n_last = flat.count("last_idx")
-        if flat in (["idx"], ["rest_idx"]):
-            continue  # batch-only index / ellipsis as last index
-        if on_diag:
-            if not (n_last == 1 and "rest_idx*" in flat):
-                probs.append("int index: the diagonal is not indexed with (*rest_idx, last_idx)")
-        elif n_last != 2 or "rest_idx*" not in flat:
-            probs.append("a branch indexes the covariance with %s: the event index does not reach both axes" % idxs)
-    ret_ok = any(isinstance(r.value, ast.Call) and src(r.value.func) == "%s.__class__" % sn and [src(x) for x in _ctor_args(r.value)] == ["new_mean", "new_cov"] for r in ast.walk(gi.node) if isinstance(r, ast.Return) and r.value is not None)
-    if not ret_ok:
-        probs.append("the result is not self.__class__(new_mean, new_cov)")
-    rep.add("C10-2", "%s:MultivariateNormal.__getitem__" % MOD, gi.where, not probs and nb >= 4, "mean[idx]; covariance indexed with the same event index on both axes in all %d branches" % nb if not probs else "; ".join(probs), {"branches": nb})
-    # C10-3 expand / unsqueeze
+                forms_seen.add("both")
+    rep.add("C10-2", "%s:MultivariateNormal.__getitem__" % MOD, gi.where, not probs and nb >= 4 and {"idx", "both"} <= forms_seen, "mean[E]; covariance indexed with the same event index on both axes on all %d returning paths" % nb if not probs else "; ".join(sorted(set(probs))[:3]), {"paths": nb})
+    # C10-3 expand / unsqueeze: on every returning path the mean and the covariance handed to the new distribution are self's mean
+    # and covariance under the same batch operation with the same batch argument (inlined expressions, no local names)
     for name in ("expand", "unsqueeze"):
         f = idx.method(M, name, own=True)
-        t = src(f.node)
-        if name == "expand":
-            ok = "self.loc.expand(batch_size + self.loc.shape[-1:])" in t and "self._covar.expand(batch_size + self._covar.shape[-2:])" in t
-            why = "mean and covariance are expanded to the same batch size"
-        else:
-            ok = ("self.mean.unsqueeze(" in t or "self.loc.unsqueeze(" in t) and ("lazy_covariance_matrix.unsqueeze(" in t or "_covar.unsqueeze(" in t)
-            # the same (normalised) dim must be used for both: both unsqueeze calls take the same argument name
-            args = [src(c.args[0]) for c in calls_in(f.node) if isinstance(c.func, ast.Attribute) and c.func.attr == "unsqueeze" and c.args]
-            ok = ok and len(set(args)) == 1
-            why = "mean and covariance are unsqueezed at the same (negative) batch position"
-        rep.add("C10-3", "%s:MultivariateNormal.%s" % (MOD, name), f.where, ok, why if ok else "%s does not apply the same batch operation to mean and covariance" % name, {})
+        sn = f.params[0]
+        probs = []
+        npaths = 0
+        for path, seq in walk_paths(f):
+            if path.outcome != RETURN:
+                continue
+            means, covs = [], []
+            for st, env in seq:
+                if not isinstance(st, ast.stmt):
+                    continue
+                for c in (x for x in ast.walk(st) if isinstance(x, ast.Call)):
+                    kw = {k.arg: k.value for k in c.keywords}
+                    if src(c.func) in ("%s.__class__" % sn, "MultivariateNormal", "type(%s)" % sn):
+                        me, ce = _ctor_args(c)
+                        if me is not None and ce is not None:
+                            means.append(inline(me, env))
+                            covs.append(inline(ce, env))
+                    elif "loc" in kw:
+                        means.append(inline(kw["loc"], env))
+                if isinstance(st, ast.Assign) and len(st.targets) == 1 and isinstance(st.targets[0], ast.Attribute) and st.targets[0].attr in COV_ATTRS and chain(st.targets[0].value) != sn:
+                    covs.append(inline(st.value, env))
+            if not means and not covs:
+                continue
+            npaths += 1
+            if len(means) != 1 or len(covs) != 1:
+                probs.append("a path builds the result from %d mean and %d covariance expressions" % (len(means), len(covs)))
+                continue
+
+            def op_of(e):
+                if isinstance(e, ast.Call) and isinstance(e.func, ast.Attribute) and e.func.attr == name and e.args:
+                    return chain(e.func.value), e.args[0]
+                return None, None
+            mb, ma = op_of(means[0])
+            cb, ca = op_of(covs[0])
+            if mb not in ("%s.loc" % sn, "%s.mean" % sn) or cb not in ("%s._covar" % sn, "%s.covariance_matrix" % sn, "%s.lazy_covariance_matrix" % sn):
+                probs.append("mean `%s` / covariance `%s` are not self's mean and covariance under .%s(...)" % (src(means[0])[:40], src(covs[0])[:40], name))
+                continue
+            if name == "unsqueeze":
+                same = ast.dump(ma) == ast.dump(ca)
+            else:
+                same = isinstance(ma, ast.BinOp) and isinstance(ca, ast.BinOp) and ast.dump(ma.left) == ast.dump(ca.left)
+            if not same:
+                probs.append("mean is %s-ed with `%s` but the covariance with `%s`" % (name, src(ma)[:40], src(ca)[:40]))
+        why = "mean and covariance undergo the same batch %s on all %d constructing path(s)" % (name, npaths)
+        rep.add("C10-3", "%s:MultivariateNormal.%s" % (MOD, name), f.where, not probs and npaths >= 2, why if not probs else "; ".join(sorted(set(probs))), {})
 
     from .common_alias import aliasing_obligations
     aliasing_obligations(idx, rep, "C10-4", list(M.methods.values()), 15, "MultivariateNormal methods interpreted")
